@@ -9,11 +9,13 @@
    the image under m of the k-th source variant, every pair of data having the same name, type, size,
    alignment and uninit flag.  (Variants are compared as sets: the order inside a variant is the layout
    order chosen by the target strategy.)
-   For the two generic targets (which assign no offsets) only the shape of the variant map is proved
-   (C20_partial); the rest is decided on every run by the correspondence engine E1 and its C20 oracle. *)
+   C20_generic is the same statement for a fresh GENERIC builder closed by either of its own two strategies
+   (which assign no offsets: the target invariant is set-level, Proofs/ReplayG.v).  Both instantiate one
+   abstract development (Proofs/Replay.v, Section Abstract) over an invariant of the target builder.
+   E1 replays every built definition into 4 native + 2 generic builders on every run, plus the C20 oracle. *)
 From Coq Require Import List NArith Lia Permutation.
 From Truc.Model Require Import Layout Builder.
-From Truc.Proofs Require Import Variants BuilderInv Refine12 ConvertP Replay.
+From Truc.Proofs Require Import Variants BuilderInv Refine12 ConvertP Replay ReplayG.
 Import ListNotations.
 
 Theorem C20 : forall h s, hist_ok h -> native s ->
@@ -31,6 +33,22 @@ Proof.
   exists m, tgt. auto 10.
 Qed.
 Print Assumptions C20.
+
+Theorem C20_generic : forall h s, hist_ok h -> gstrat s ->
+  let ds := b_ds (run h) in let vs := b_vs (run h) in
+  exists m tgt,
+    convert (ds, vs) s empty_builder = COk (map (fun k => (k, k)) (seq 0 (length vs)), m, tgt) /\
+    b_add tgt = [] /\ b_rm tgt = [] /\
+    Forall2 (fun v' v => Permutation v' (map (mget m) v)) (b_vs tgt) vs /\
+    (forall v i, In v vs -> In i v ->
+       exists i', assoc m i = Some i' /\ (i' < length (b_ds tgt))%nat /\ same5 (getd ds i) (getd (b_ds tgt) i')) /\
+    (forall v1 v2 i1 i2, In v1 vs -> In v2 vs -> In i1 v1 -> In i2 v2 -> mget m i1 = mget m i2 -> i1 = i2).
+Proof.
+  intros h s Hh Hs ds vs.
+  destruct (convert_iso_generic ds vs s (run_src_ok h Hh) Hs) as (m & tgt & E & A & R & _ & V & D & J).
+  exists m, tgt. auto 10.
+Qed.
+Print Assumptions C20_generic.
 
 (* what the proof rests on: identifiers are never reused and consecutive variants differ *)
 Theorem C20_source : forall h, hist_ok h -> src_ok (b_ds (run h)) (b_vs (run h)).
